@@ -527,9 +527,22 @@ class DynDiGraph(nx.DiGraph):
             raise nx.NetworkXError(
                 "The t argument must be specified.")
 
-        if self.has_edge(u, v) and (t[0] if isinstance(t, list) else t) < self._succ[u][v]['t'][-1][0]:
-            raise ValueError("The specified interaction extension is broader than "
-                             "the ones already present for the given nodes.")
+        if not isinstance(t, list):
+            t = [t, t]
+        if e is not None and self.edge_removal:
+            t[1] = e - 1
+
+        app = None
+        if self.has_edge(u, v):
+            app = self._succ[u][v]['t']
+            if t[0] < app[-1][0]:
+                raise ValueError("The specified interaction extension is broader than "
+                                 "the ones already present for the given nodes.")
+            if self.edge_removal and t[1] <= app[-1][1]:
+                # the span is already covered by the latest run
+                if e is not None and t[1] == app[-1][1]:
+                    self.__add_event(e, u, v, "-")
+                return
 
         if u not in self._succ:
             self._succ[u] = self.adjlist_inner_dict_factory()
@@ -539,87 +552,59 @@ class DynDiGraph(nx.DiGraph):
             self._succ[v] = self.adjlist_inner_dict_factory()
             self._pred[v] = self.adjlist_inner_dict_factory()
             self._node[v] = {}
+        datadict = self._succ[u].get(v, self.edge_attr_dict_factory())
+        new_from = t[0]
 
-        if type(t) != list:
-            t = [t, t]
-
-        for idt in [t[0]]:
-            if self.has_edge(u, v) and not self.edge_removal:
-                continue
-            else:
-                if idt not in self.time_to_edge:
-                    self.time_to_edge[idt] = {(u, v, "+"): None}
-                else:
-                    if (u, v, "+") not in self.time_to_edge[idt]:
-                        self.time_to_edge[idt][(u, v, "+")] = None
-
-        if e is not None and self.edge_removal:
-
-            t[1] = e - 1
-            if e not in self.time_to_edge:
-                self.time_to_edge[e] = {(u, v, "-"): None}
-            else:
-                self.time_to_edge[e][(u, v, "-")] = None
-
-        # add the interaction
-        datadict = self.adj[u].get(v, self.edge_attr_dict_factory())
-
-        if 't' in datadict:
-            app = datadict['t']
-            max_end = app[-1][1]
-
-            if max_end == app[-1][0] and t[0] == app[-1][0] + 1:
-
-                app[-1] = [app[-1][0], t[1]]
-                if app[-1][0] + 1 in self.time_to_edge and (u, v, "+") in self.time_to_edge[app[-1][0] + 1]:
-                    del self.time_to_edge[app[-1][0] + 1][(u, v, "+")]
-
-            else:
-                if t[0] < app[-1][0]:
-                    raise ValueError("The specified interaction extension is broader than "
-                                     "the ones already present for the given nodes.")
-
-                if t[0] <= max_end < t[1]:
-                    app[-1][1] = t[1]
-                    if max_end + 1 in self.time_to_edge:
-                        if self.edge_removal:
-                            del self.time_to_edge[max_end + 1][(u, v, "-")]
-                        del self.time_to_edge[t[0]][(u, v, "+")]
-
-                elif max_end == t[0] - 1:
-                    if max_end + 1 in self.time_to_edge and (u, v, "+") in self.time_to_edge[max_end + 1]:
-                        del self.time_to_edge[max_end + 1][(u, v, "+")]
-                        if self.edge_removal:
-                            if max_end + 1 in self.time_to_edge and (u, v, '-') in self.time_to_edge[max_end + 1]:
-                                del self.time_to_edge[max_end + 1][(u, v, '-')]
-                            if t[1] + 1 in self.time_to_edge:
-                                self.time_to_edge[t[1] + 1][(u, v, "-")] = None
-                            else:
-                                self.time_to_edge[t[1] + 1] = {(u, v, "-"): None}
-
-                    app[-1][1] = t[1]
-                else:
-                    app.append(t)
-        else:
+        if app is None:
             datadict['t'] = [t]
-
-        if e is not None:
-            span = range(t[0], t[1] + 1)
-            for idt in span:
-                if idt not in self.snapshots:
-                    self.snapshots[idt] = 1
-                else:
-                    self.snapshots[idt] += 1
+            self.__add_event(t[0], u, v, "+")
+            if e is not None and self.edge_removal:
+                self.__add_event(e, u, v, "-")
+        elif not self.edge_removal:
+            if t[0] <= app[-1][1] + 1:
+                app[-1][1] = max(app[-1][1], t[1])
+            else:
+                app.append(t)
         else:
-            for idt in t:
-                if idt is not None:
-                    if idt not in self.snapshots:
-                        self.snapshots[idt] = 1
-                    else:
-                        self.snapshots[idt] += 1
+            max_end = app[-1][1]
+            if t[0] <= max_end + 1:
+                # the span extends the latest run: its closing event moves
+                new_from = max_end + 1
+                self.__drop_event(max_end + 1, u, v, "-")
+                single = max_end == app[-1][0] and t[0] == max_end + 1
+                app[-1] = [app[-1][0], t[1]]
+                if e is not None:
+                    self.__add_event(e, u, v, "-")
+                elif not single:
+                    self.__add_event(t[1] + 1, u, v, "-")
+            else:
+                app.append(t)
+                self.__add_event(t[0], u, v, "+")
+                if e is not None:
+                    self.__add_event(e, u, v, "-")
+
+        if self.edge_removal:
+            # every instant newly covered by this call counts one more interaction
+            for idt in range(new_from, t[1] + 1):
+                self.snapshots[idt] = self.snapshots.get(idt, 0) + 2
+        else:
+            self.snapshots[t[0]] = self.snapshots.get(t[0], 0) + 2
 
         self._succ[u][v] = datadict
         self._pred[v][u] = datadict
+    def __add_event(self, tid, u, v, op):
+        evs = self.time_to_edge.setdefault(tid, {})
+        if (u, v, op) not in evs and (self.directed or (v, u, op) not in evs):
+            evs[(u, v, op)] = None
+
+    def __drop_event(self, tid, u, v, op):
+        evs = self.time_to_edge.get(tid)
+        if evs is not None:
+            evs.pop((u, v, op), None)
+            if not self.directed:
+                evs.pop((v, u, op), None)
+            if not evs:
+                del self.time_to_edge[tid]
 
     def add_interactions_from(self, ebunch, t=None, e=None):
         """Add all the interaction in ebunch at time t.
